@@ -111,7 +111,7 @@ pub fn run(ctx: &mut Ctx) {
     let max_junk = ctx.tier.pick(6, 10);
     let p = DocParams { max_nodes: ctx.tier.pick(5, 6), globals: vec![ID_TAG, ID_VOID], exclude: vec![], unknown_subsets: true, devs: 0, payload_classes: false, big_payloads: false, noncanonical: false, width_devs: false, extras: true, all_widths: false };
     ctx.meta("rule", "cases: (known-size document, tag boundary b (not the end), junk run, capacity); junk runs = every string up to length 3 over {00, 02, 05, 0f} (bytes that cannot begin any id of V whatever follows: zero byte, 7-, 6- and 5-byte markers) plus structured runs up to the length bound; inserted without adjusting any size field. Independent precondition: following tag's extent + junk length still inside every enclosing known-size master's declared range. If it holds: items before the junk == reference flatten prefix, exactly one error, try_recover() Ok, remaining items == undamaged flatten with offsets >= b shifted by the junk length, clean end. Always: no panic, try_recover fails only with UnexpectedEOF/ReadError, offsets never move backwards across a recovery. Non-trivial: insertions inside >= 1 known-size master with the precondition true.");
-    ctx.meta("bounds", &format!("documents <= {} elements (+ spines), every boundary, junk length <= {}, capacities {{default,16}}", p.max_nodes, max_junk));
+    ctx.meta("bounds", &format!("documents <= {} elements (+ spines), every boundary, junk length <= {}, capacities {{default,16}}, tolerance {{none, oversized, hierarchy+oversized}}", p.max_nodes, max_junk));
     ctx.meta("assumptions", "the unconditional clause for arbitrary byte streams and call histories is exercised by C05's history sweep");
     for c in ["unknown_size_ends_deferred_past_the_junk", "precondition_true_inside_known_master", "precondition_true_root_level", "precondition_false"] {
         ctx.expect_nonzero(c);
@@ -148,9 +148,14 @@ pub fn run(ctx: &mut Ctx) {
                 input.extend_from_slice(&bytes[..b]);
                 input.extend_from_slice(junk);
                 input.extend_from_slice(&bytes[b..]);
-                for cap in [None, Some(16)] {
-                    let cfg = Cfg::strict().with_cap(cap);
-                    let d = || format!("doc=[{}] bytes={} junk={} inserted at {} cap={:?} (precondition {})", docs::doc_short(&rs, doc), hex(&bytes), hex(junk), b, cap, pre);
+                for (cap, allow) in [(None, 0u8), (Some(16), 0), (None, crate::obs::ALLOW_OVERSIZED), (None, crate::obs::ALLOW_HIER | crate::obs::ALLOW_OVERSIZED)] {
+                    // (tolerating oversized children / hierarchy problems changes nothing here: the junk bytes are not ids
+                    // of the specification under any of these settings, and the document itself is valid)
+                    if allow != 0 && junk.len() > 2 && junk.len() != 5 {
+                        continue;
+                    }
+                    let cfg = Cfg::strict().with_cap(cap).with_allow(allow);
+                    let d = || format!("doc=[{}] bytes={} junk={} inserted at {} cap={:?} allow={} (precondition {})", docs::doc_short(&rs, doc), hex(&bytes), hex(junk), b, cap, allow, pre);
                     if !ctx.enter(&d) {
                         continue;
                     }
